@@ -156,6 +156,10 @@ def replay_then_resume(prog, sched, ext_menu=(), timeout_probe=False):
             s.log({"e": "resume_timeout_probe", "timed_out": (s.outcome or {"kind": ""})["kind"] == "timedout",
                    "outcome": (s.outcome or {"kind": "live"})["kind"]})
             return s.trace
+        for (ty, target) in ext_menu:
+            if s.outcome is None:
+                s.drain()
+                s.apply(["send", ty.rstrip("1"), "y%d" % s.ext_sent, target or "*", 1 if ty.endswith("1") else 0])
         run_to_end(s)
         s.log({"e": "resume_end", "outcome": (s.outcome or {"kind": "live"})["kind"],
                "detail": (s.outcome or {"detail": ""})["detail"]})
